@@ -84,6 +84,15 @@ func (fc *FuncCtx) execInstr(fr *Frame, st *State, ins ssa.Instruction) {
 		}
 		xt := v.asTerm(st, x)
 		if xt.Sort != v.tm.SortOf(t.Type()) {
+			// a named type with an abstract sort converted to / from its underlying representation (sdk.AccAddress <-> []byte):
+			// the representation function is uninterpreted (the same symbol for every conversion of that pair of sorts)
+			_, absFrom := v.tm.abstract[typeKey(t.X.Type())]
+			_, absTo := v.tm.abstract[typeKey(t.Type())]
+			if absFrom || absTo {
+				ts := v.tm.SortOf(t.Type())
+				fr.vals[t] = Val{T: v.c.UF("conv_"+sanitize(xt.Sort.Name)+"_to_"+sanitize(ts.Name), ts, xt), GoT: t.Type()}
+				return
+			}
 			unsupported("changetype between different sorts %s -> %s", xt.Sort.Name, v.tm.SortOf(t.Type()).Name)
 		}
 		fr.vals[t] = Val{T: xt, GoT: t.Type(), Origin: x.Origin}
